@@ -123,9 +123,9 @@ func c05Decode(js []byte) (map[string]any, error) {
 }
 
 type c05Mon struct {
-	m    *vk.M
-	idx  int
-	kind string // scenario label
+	m      *vk.M
+	idx    int
+	coarse bool // systematic probes: vk's Current file is refreshed every 512 probes only (the last-call file is exact)
 }
 
 func (cm *c05Mon) desc(api c05API, s *c05gen.Shape, payload []byte, note string) string {
@@ -178,11 +178,53 @@ func c05Raw(api c05API, s *c05gen.Shape, payload []byte) c05Out {
 	return out
 }
 
+// Attribution of a fatal process death: vk's Current file is rewritten once per scenario
+// (create+write+close per call dominated the run time on this box); the call about to
+// run is written with a single pwrite into a second, permanently open *.current file in
+// $VK_OUT, which the driver picks up in the same way.
+var (
+	c05CurMu   sync.Mutex
+	c05CurFile *os.File
+	c05CurIdx  = -1 << 62
+	c05CurBuf  [4096]byte
+)
+
+func c05Current(m *vk.M, idx int, d string) {
+	c05CurMu.Lock()
+	defer c05CurMu.Unlock()
+	if idx != c05CurIdx {
+		c05CurIdx = idx
+		m.Current(d)
+	}
+	dir := os.Getenv("VK_OUT")
+	if dir == "" {
+		return
+	}
+	if c05CurFile == nil {
+		f, err := os.OpenFile(fmt.Sprintf("%s/C05.lastcall.%d.current", dir, os.Getpid()), os.O_CREATE|os.O_RDWR|os.O_TRUNC, 0o644)
+		if err != nil {
+			return
+		}
+		c05CurFile = f
+	}
+	n := copy(c05CurBuf[:], "\nlast call: ")
+	n += copy(c05CurBuf[n:len(c05CurBuf)-1], d)
+	for i := n; i < len(c05CurBuf); i++ {
+		c05CurBuf[i] = ' '
+	}
+	c05CurBuf[len(c05CurBuf)-1] = '\n'
+	c05CurFile.WriteAt(c05CurBuf[:], 0)
+}
+
 // c05Call = c05Raw + attribution file + counters.
 func c05Call(cm *c05Mon, api c05API, s *c05gen.Shape, doc map[string]any, note string) (c05Out, string) {
 	payload := c05Payload(api, doc)
 	d := cm.desc(api, s, payload, note)
-	cm.m.Current(d)
+	if cm.coarse {
+		c05Current(cm.m, cm.idx>>9, d)
+	} else {
+		c05Current(cm.m, cm.idx, d)
+	}
 	out := c05Raw(api, s, payload)
 	cm.m.Count("calls."+string(api), 1)
 	switch {
